@@ -254,6 +254,28 @@ def gen_twins(src, fn):
             if src.raw[s:s + 4] == b"elif":
                 continue
             out.append(([(s, e, txt.encode())], "FLIP", f"L{n.lineno} flip arms of `if {ast.unparse(n.test)[:60]}`"))
+    # LOGALL: a logging statement after every simple statement of the function at once (adjacency-based rules must not care)
+    edits = []
+    for n in ast.walk(fn):
+        if isinstance(n, (ast.Expr, ast.Assign, ast.AugAssign, ast.AnnAssign)) and not isinstance(getattr(n, "value", None), ast.Constant) and n.col_offset > 0:
+            owner = None
+            for m in ast.walk(fn):
+                for fld in ("body", "orelse", "finalbody"):
+                    blk = getattr(m, fld, None)
+                    if isinstance(blk, list) and n in blk:
+                        owner = m
+            if owner is None or isinstance(owner, (ast.ClassDef,)):
+                continue
+            ln_start = src.starts[n.lineno - 1]
+            if src.raw[ln_start:src.off(n.lineno, n.col_offset)].strip():
+                continue            # not the first token on its line (e.g. `if x: stmt`)
+            e = src.off(n.end_lineno, n.end_col_offset)
+            eol = src.raw.find(b"\n", e)
+            if eol < 0 or src.raw[e:eol].strip().startswith(b";"):
+                continue
+            edits.append((eol, eol, b"\n" + b" " * n.col_offset + b"log.debug('lbsa twin')"))
+    if edits:
+        out.append((edits, "LOGALL", f"L{fn.lineno} a log.debug(...) after each of {len(edits)} simple statements"))
     first = fn.body[0]
     if isinstance(first, ast.Expr) and isinstance(first.value, ast.Constant) and len(fn.body) > 1:
         first = fn.body[1]
